@@ -71,6 +71,13 @@ pub fn limit_memory(bytes: u64) {
     }
 }
 
+/// Limit the address space to what the process maps right now plus `extra` bytes (the size of the
+/// binary and of its tables differs between tiers; the head-room for the code under test must not).
+pub fn limit_memory_above_current(extra: u64) {
+    let pages: u64 = std::fs::read_to_string("/proc/self/statm").ok().and_then(|s| s.split_whitespace().next().and_then(|x| x.parse().ok())).unwrap_or(0);
+    limit_memory(pages * 4096 + extra);
+}
+
 pub struct Crash {
     pub worker: usize,
     pub status: String,
